@@ -55,11 +55,15 @@ func c05Executor(c *Ctx) {
 		}
 		acq := eventsWhere(p, func(e *Event) bool { return isCall(e, "acquirePermitsWithMaxWait") })
 		inner := eventsWhere(p, func(e *Event) bool { return isDynCall(e, innerFn) })
-		if len(acq) != 1 || len(acq[0].Args) != 4 || acq[0].Args[1] != exec || acq[0].Args[3] != maxWait || !(acq[0].Args[0].Op == "app" && hasPrefix(acq[0].Args[0].Aux, "Context@") && acq[0].Args[0].Args[0] == exec) {
+		var aa []*T
+		if len(acq) == 1 {
+			aa = lastArgs(acq[0], 4)
+		}
+		if len(acq) != 1 || aa == nil || len(fullArgs(acq[0])) != 5 || aa[1] != exec || aa[3] != maxWait || !(aa[0].Op == "app" && hasPrefix(aa[0].Aux, "Context@") && aa[0].Args[0] == exec) {
 			bad("the wrapper must acquire exactly once, with the execution (so the wait observes its cancellation), its context and the configured max wait time")
 			continue
 		}
-		if k, isC := acq[0].Args[2].IsConstInt(); !isC || k != 1 {
+		if k, isC := aa[2].IsConstInt(); !isC || k != 1 {
 			bad("one execution takes exactly one permit")
 			continue
 		}
@@ -293,10 +297,11 @@ func c05Delegation(c *Ctx) {
 		for _, p := range ps {
 			calls := eventsWhere(p, func(e *Event) bool { return e.Kind == EvCall && !e.Pure })
 			want := sp.args(ev, fn)
-			good := p.Exit == ExitReturn && len(calls) == 1 && calls[0].Method == sp.callee && len(calls[0].Args) == len(want)
+			good := p.Exit == ExitReturn && len(calls) == 1 && calls[0].Method == sp.callee && len(fullArgs(calls[0])) == len(want)+1
 			if good {
+				ca := lastArgs(calls[0], len(want))
 				for i, w := range want {
-					if !w(calls[0].Args[i]) {
+					if !w(ca[i]) {
 						good = false
 					}
 				}
